@@ -6,7 +6,7 @@ use serde_json::{json, Value};
 use std::sync::OnceLock;
 
 pub const N_PREFIX: usize = 19;
-pub const N_KINDS: usize = 16;
+pub const N_KINDS: usize = 18;
 
 const PREFIX_NAMES: [&str; N_PREFIX] = [
     "blank", "line-comment", "block-comment-1", "block-comment-3", "comment-then-decl", "comment2-then-decl", "spliced-decl", "define", "if0-block", "ifdef-else-block", "include-h", "include-h-nonl", "include-asm", "define-and-use", "decl-with-string", "crlf-decl",
@@ -15,7 +15,7 @@ const PREFIX_NAMES: [&str; N_PREFIX] = [
 
 const KIND_NAMES: [&str; N_KINDS] = [
     "#error", "unknown-directive", "unterminated-string", "missing-include", "#if-undefined", "pest-syntax", "unknown-identifier", "redefinition", "const-div-zero", "short-pointer", "subscript-on-scalar", "too-many-params", "break-outside-loop", "csleep-11", "deref-non-pointer",
-    "pest-syntax-in-function",
+    "pest-syntax-in-function", "generator-error-in-local-initialiser", "generator-error-in-statement",
 ];
 
 #[derive(Clone, Debug)]
@@ -146,6 +146,8 @@ fn offending(kind: usize) -> &'static str {
         13 => "  csleep(11);",
         14 => "  *a = 1;",
         15 => "  a = = 1;",
+        16 => "  char lv = a * a;",
+        17 => "  a = a * a;",
         _ => unreachable!(),
     }
 }
